@@ -373,7 +373,6 @@ func runConnPipe(c connCase) (replies []byte, log []invocation, err error) {
 	return conn.Written(), dl.take(c.id), nil
 }
 
-
 func connLine(c connCase, replies []byte, log []invocation) string {
 	l := &Line{}
 	l.S("conn")
